@@ -454,7 +454,7 @@ theorem mmOK_sum (Ms : List (Op R)) (hwf : (sum Ms).wf = true) (h : ∀ M ∈ Ms
   intro b X i j hi hj
   have hsh := sum_shapes Ms hwf
   have key := sumMatmat_eq_pairs (sum Ms).rows (sum Ms).cols b
-    (Ms.map (fun M => ((fun Y => (M.mm b Y).f), M.den.f))) (by
+    (Ms.map (fun M => ((fun Y => M.mm b Y), M.den.f))) (by
       intro t ht Y i j hi hj
       obtain ⟨M, hM, rfl⟩ := List.mem_map.mp ht
       simp only
@@ -470,7 +470,7 @@ theorem rmmOK_sum (Ms : List (Op R)) (hwf : (sum Ms).wf = true) (h : ∀ M ∈ M
   intro b X i j hi hj
   have hsh := sum_shapes Ms hwf
   have key := sumMatmat_right (sum Ms).rows b (sum Ms).cols Ms
-    (fun M Y => (M.rmm b Y).f) (fun M => M.den.f) (by
+    (fun M Y => M.rmm b Y) (fun M => M.den.f) (by
       intro M hM Y i j hi hj
       rw [← (hsh M hM).2] at hj
       rw [h M hM b Y i j hi hj, mmul_apply, (hsh M hM).1]) X i j hi hj
@@ -481,11 +481,11 @@ theorem rmmOK_sum (Ms : List (Op R)) (hwf : (sum Ms).wf = true) (h : ∀ M ∈ M
 /-! ## Kronecker, KronSum, BlockDiag -/
 
 /-- a member as the composite kernels see it: shape, represented matrix, `_matmat` -/
-def facMm (M : Op R) : FacAct R := ⟨M.rows, M.cols, M.den.f, fun b' m => (M.mm b' m).f⟩
+def facMm (M : Op R) : FacAct R := ⟨M.rows, M.cols, M.den.f, fun b' m => M.mm b' m⟩
 /-- a member as `den` of the composite kinds sees it -/
-def facDen (M : Op R) : FacAct R := ⟨M.rows, M.cols, M.den.f, fun _ m => m⟩
+def facDen (M : Op R) : FacAct R := ⟨M.rows, M.cols, M.den.f, fun _ m => MatV.of m⟩
 /-- a member as `to_dense` of the composite kinds sees it -/
-def facTd (M : Op R) : FacAct R := ⟨M.rows, M.cols, M.td.f, fun _ m => m⟩
+def facTd (M : Op R) : FacAct R := ⟨M.rows, M.cols, M.td.f, fun _ m => MatV.of m⟩
 
 theorem facMm_ok (M : Op R) (h : MmOK M) : (facMm M).Ok := by
   intro b m p f hp hf
@@ -595,7 +595,7 @@ theorem mmOK_sliced (A : Op R) (s0 s1 : Ix) (hnd : (sliced A s0 s1).dupSlice = f
     (h : MmOK A) : MmOK (sliced A s0 s1) := by
   intro b X i j hi hj
   simp only [Op.rows] at hi
-  have key := slicedMatmat_eq (fun Y => (A.mm b Y).f) A.den.f A.rows A.cols b
+  have key := slicedMatmat_eq (fun Y => A.mm b Y) A.den.f A.rows A.cols b
     (fun Y i j hi hj => (h b Y i j hi hj).trans (mmul_apply _ _ _ _ _))
     (idxR A s0) (idxC A s1) (getD_resolve_lt _ _) (getD_resolve_lt _ _)
     (sliced_nodup A s0 s1 hnd).2 X i j hi hj
@@ -607,7 +607,7 @@ theorem rmmOK_sliced (A : Op R) (s0 s1 : Ix) (hnd : (sliced A s0 s1).dupSlice = 
     (h : RmmOK A) : RmmOK (sliced A s0 s1) := by
   intro b X i j hi hj
   simp only [Op.cols] at hj
-  have key := slicedRmatmat_eq (fun Y => (A.rmm b Y).f) A.den.f A.rows A.cols b
+  have key := slicedRmatmat_eq (fun Y => A.rmm b Y) A.den.f A.rows A.cols b
     (fun Y i j hi hj => (h b Y i j hi hj).trans (mmul_apply _ _ _ _ _))
     (idxR A s0) (idxC A s1) (getD_resolve_lt _ _) (getD_resolve_lt _ _)
     (sliced_nodup A s0 s1 hnd).1 X i j hi hj
@@ -642,7 +642,7 @@ theorem mmOK_concat_h (Ms : List (Op R)) (hwf : (concat true Ms).wf = true)
   intro b X i j hi hj
   have hsh := concat_shapes_h Ms hwf
   have key := hcatMatmat_eq_triples (concat true Ms).rows b
-    (Ms.map (fun M => (M.cols, (fun Y => (M.mm b Y).f), M.den.f))) (by
+    (Ms.map (fun M => (M.cols, (fun Y => M.mm b Y), M.den.f))) (by
       intro t ht Y i j hi hj
       obtain ⟨M, hM, rfl⟩ := List.mem_map.mp ht
       simp only
@@ -657,9 +657,9 @@ theorem mmOK_concat_v (Ms : List (Op R)) (hwf : (concat false Ms).wf = true)
     (h : ∀ M ∈ Ms, MmOK M) : MmOK (concat false Ms) := by
   intro b X i j _ hj
   have hsh := concat_shapes_v Ms hwf
-  have hF : List.Forall₂ (fun (a : Nat × (MatF R → MatF R)) (A : MatF R) =>
-      ∀ Y i j, i < a.1 → j < b → a.2 Y i j = ∑ q ∈ range (concat false Ms).cols, A i q * Y q j)
-      (Ms.map (fun M => (M.rows, fun Y => (M.mm b Y).f))) (Ms.map (fun M => M.den.f)) := by
+  have hF : List.Forall₂ (fun (a : Nat × (MatF R → MatV R)) (A : MatF R) =>
+      ∀ Y i j, i < a.1 → j < b → (a.2 Y).f i j = ∑ q ∈ range (concat false Ms).cols, A i q * Y q j)
+      (Ms.map (fun M => (M.rows, fun Y => M.mm b Y))) (Ms.map (fun M => M.den.f)) := by
     rw [List.forall₂_map_left_iff, List.forall₂_map_right_iff, List.forall₂_same]
     intro M hM Y i j hi hj
     simp only at hi ⊢
